@@ -8,9 +8,9 @@ from .. import syscorr, sysinterp
 PROP = "C07"
 LEAN_TARGETS = ["Eliot.Properties.C07"]
 AUDIT = "Eliot/Audit/C07.lean"
+SKELETON_TARGETS = {"Sys.C07.skeleton_E5": "Eliot.Properties.C07Skel"}
 THEOREMS = ["Sys.C07.execS_outcome", "Sys.C07.execB_outcome", "Sys.C07.app_outcome_unchanged",
             "Sys.C07.outcome_env_independent", "Sys.C07.exc_identity"]
-GENERATED_OBLIGATIONS = ["Sys.C07.skeleton_E5"]
 RULE = ("(a) programs of the core language with failure masks over every serializer / extractor / destination call and exceptions "
         "whose str() raises, aimed at start, end, in-action, context-less messages and at the reports themselves; (b) hostile-value "
         "stream: objects whose __str__/__repr__ raise, non-string dict keys, ints beyond 64 bits, NaN/inf, bytes, lone surrogates, "
